@@ -452,7 +452,7 @@ def add_targets(E, spec, pid):
     contracts["TLSTransportWrapper.close"] = Contract(
         f"{TW}.close", make_args=c_args,
         ensures=[("[C06] never raises", no_raise),
-                 ("[C06] close(): TLS shutdown, its ciphertext flushed in order, then the TCP transport closed; no plaintext added", c_post)])
+                 ("[C06,C15] close(): TLS shutdown, its ciphertext flushed in order, then the TCP transport closed (whether or not the peer has sent its close_notify); no plaintext added", c_post)])
 
     def ic_post(ctx, old, args, outcome):
         (w,) = args
